@@ -37,12 +37,15 @@ pub struct BodyCfg {
     pub const_items: bool,
     /// known finding: the initial conditional jump of a labelled `while (..)` / `if (..)` loses its difficulty label
     pub exclude_label_on_cond_region: bool,
+    /// raw jumps may carry an explicit `@ time` different from the time in effect (C02 only: both the reference interpreter
+    /// and the emitted jump instruction set the clock to that value when, and only when, the jump is taken)
+    pub explicit_jump_times: bool,
 }
 
 impl BodyCfg {
     pub fn full() -> BodyCfg {
         BodyCfg { structured: true, raw_jumps: true, time_labels: true, diff: true, locals: true, calls: true, assigns: true, interrupts: false,
-                  max_stmts: 14, max_depth: 3, expr_depth: 3, exclude_reg_in_diff_switch: false, dynamic_counts: true, sentinel: true, time_decrease: false, nested_diff_switch: true, const_ternary_cond: true, label_structured: false, more_locals: false, const_items: false, exclude_label_on_cond_region: false }
+                  max_stmts: 14, max_depth: 3, expr_depth: 3, exclude_reg_in_diff_switch: false, dynamic_counts: true, sentinel: true, time_decrease: false, nested_diff_switch: true, const_ternary_cond: true, label_structured: false, more_locals: false, const_items: false, exclude_label_on_cond_region: false, explicit_jump_times: false }
     }
 }
 
@@ -462,7 +465,8 @@ impl<'a, 'b> BodyGen<'a, 'b> {
                 // forward unconditional goto over a few statements
                 let l = self.fresh_label();
                 let n = self.tape.below(3);
-                let mut out: Vec<SNode> = vec![Stmt::Goto { label: l.clone(), time: None }.into()];
+                let time = self.jump_time(self.tcur);
+                let mut out: Vec<SNode> = vec![Stmt::Goto { label: l.clone(), time }.into()];
                 out.extend(self.flat_stmts(n, depth));
                 out.push(Stmt::Label(l).into());
                 Some(out)
@@ -473,7 +477,8 @@ impl<'a, 'b> BodyGen<'a, 'b> {
                 let cond = self.cond(1);
                 let unless = self.tape.chance(1, 4);
                 let n = self.tape.below(3);
-                let mut out: Vec<SNode> = vec![Stmt::CondGoto { unless, cond, label: l.clone(), time: None }.into()];
+                let time = self.jump_time(self.tcur);
+                let mut out: Vec<SNode> = vec![Stmt::CondGoto { unless, cond, label: l.clone(), time }.into()];
                 out.extend(self.flat_stmts(n, depth));
                 out.push(Stmt::Label(l).into());
                 Some(out)
@@ -485,14 +490,33 @@ impl<'a, 'b> BodyGen<'a, 'b> {
                 let l = self.fresh_label();
                 let k = 1 + self.tape.below(3) as i32;
                 let n = self.tape.below(3);
+                let t_label = self.tcur;
                 let mut out: Vec<SNode> = vec![Stmt::Assign { var: VarUse::plain(v.clone()), op: "=".into(), rhs: Expr::LitI(k) }.into(), Stmt::Label(l.clone()).into()];
                 out.extend(self.flat_stmts(n, depth));
                 let cond = if flavor == ">" { Expr::Bin(">".into(), Box::new(Expr::PreDec(VarUse::plain(v.clone()))), Box::new(Expr::LitI(0))) } else { Expr::PreDec(VarUse::plain(v.clone())) };
-                out.push(Stmt::CondGoto { unless: false, cond, label: l, time: None }.into());
+                if self.tape.chance(1, 3) {
+                    // the exit spelled with `unless`:  unless (--V) goto end [@ T]; goto lbl; end:
+                    let end = self.fresh_label();
+                    let time = self.jump_time(self.tcur);
+                    out.push(Stmt::CondGoto { unless: true, cond, label: end.clone(), time }.into());
+                    out.push(Stmt::Goto { label: l, time: None }.into());
+                    out.push(Stmt::Label(end).into());
+                } else {
+                    let time = self.jump_time(t_label);
+                    out.push(Stmt::CondGoto { unless: false, cond, label: l, time }.into());
+                }
                 self.release_loopvar(&v);
                 Some(out)
             }
         }
+    }
+
+    /// An explicit jump time that is never later than the time in effect at the target (`limit`): the clock is then never
+    /// ahead of the code it runs.  (A clock that is ahead is reset by the jumps the compiler generates inside later
+    /// statements - each carries its own statement's time - which the statement-level reference interpreter does not model.)
+    fn jump_time(&mut self, limit: i32) -> Option<i32> {
+        if !self.cfg.explicit_jump_times || !self.tape.chance(1, 3) { return None; }
+        Some(match self.tape.below(4) { 0 => limit, 1 => (limit - 1).max(0), 2 => (limit - 3).max(0), _ => 0 }.min(limit))
     }
 
     /// statements that do not declare locals (safe to jump over)
